@@ -278,6 +278,10 @@ class GraphSystem(System):
         if at:
             if c.has_lang and g.attackers and len(g.attackers) + 2 <= self.max_attackers + 1:
                 ops.append((('attach',), 1))
+            if not st and c.has_lang and not g.attackers and ids:
+                # a step the model's entry points name is removed before the attackers are attached:
+                # 'exactly the existing nodes named by the model's entry points'
+                ops.append((('remove_node', ids[0]), 0))
         if at or st:
             if len(g.attackers) < self.max_attackers:
                 ops.append((('add_attacker', None, (), ()), 0))
